@@ -419,6 +419,8 @@ where
     /// the same array as `bytecode`, which should be the entire
     /// expression.
     pub fn parse(bytes: &mut R, encoding: Encoding) -> Result<Operation<R, Offset>> {
+        #[cfg(gimli_verif)]
+        crate::verif::bump(&crate::verif::OP_PARSE_CALLS);
         let opcode = bytes.read_u8()?;
         let name = constants::DwOp(opcode);
         match name {
